@@ -83,7 +83,7 @@ def gen(rng):
         c["ops"] = []
     elif cls == "small_n":
         c["ops"].append({"op": "recreate", "strategy": rng.choice(["pc", "linfixed", "expadaptive", "cubic"]),
-                         "n": rng.choice([1, 0, -2]), "force": True})
+                         "n": rng.choice([1, 0, -2, 1.5, 1.75, 450 / 300, 1.9999999999999998]), "force": True})
     elif cls == "bad_ref_rule":
         c["ops"].append({"op": "match", "target": "trapezoid", "ref": rng.choice(["simpson", "rect", "Rectangle"]), "alpha": 1,
                          "strategy": "closest", "force": True})
